@@ -68,6 +68,15 @@ impl Dependencies for Declaration {
             Self::Continue(_) | Self::Break(_) => vec![],
         }
     }
+
+    /// An assignment evaluates its value before it binds its name: what it declares does not
+    /// supply what its own value needs.  (A class does supply its own name to its members.)
+    fn net_dependencies(&self) -> Vec<Dependency> {
+        match self {
+            Self::Assignment(assignment) => assignment.net_dependencies(),
+            _ => super::get_net_dependencies(self, false),
+        }
+    }
 }
 
 impl Compile for Declaration {
